@@ -26,13 +26,13 @@ def run(v, workdir, replay):
     events = list(runner.read_events(workdir, prefix="events-c15"))
     runner.check_started_ended(events)
     check(v, events)
-    v.need("cases", 8000)
-    v.need("accepted", 1000)
+    v.need("cases", 5000)
+    v.need("accepted", 500)
     v.need("empty_commits_accepted", 50)
     for m in ("just_above", "just_below"):
         for r in range(3):
-            v.need("margin:%s:mod%d" % (m, r), 5)
-    v.need("margin:eq:mod0", 5)
+            v.need("margin:%s:mod%d" % (m, r), 2)
+    v.need("margin:eq:mod0", 2)
     for c in ("one_bad_signature", "one_bad_extension", "duplicate_voter", "outsider_votes", "last_commit_mismatch", "nil_with_extension"):
         v.need("class:" + c, 50)
     v.need("prices_checked", 1000)
